@@ -12,7 +12,7 @@ P["C05"] = {"assumptions": [ADUR, ATL, A["KANI"]], "trusted_base": TB_K, "not_de
 P["C06"] = {"assumptions": [ADUR, ATL, A["KANI"]], "trusted_base": TB_K,
             "not_decided": ["'within float rounding' for inexact step splits: no contract bounds the sensitivity of an arbitrary eased timeline to a 1 ns perturbation; advance(a);advance(b)==advance(a+b) is decided only through: time accumulates exactly (Duration add) and values are a function of the accumulated time (advance_contract)"]}
 P["C07"] = {"assumptions": [ADUR, ATL, A["A1"], A["KANI"]], "trusted_base": TB_K,
-            "not_decided": ["that real (generated) timelines meet the abstract contract TL used here - in particular 'terminal values for every t >= duration()' - is the business of C03's contracts (ts_lemma_duration_agrees_*: proved for every configuration since the fix of the end-instant defect, DESIGN.md 8.14) and of the native Bevy/derive searches, not of this check's harnesses"]}
+            "not_decided": ["QUICK TIER: the Repeat::Times case of ts_lemma_duration_agrees (every position at t >= duration() is terminal) is a single 13-17 minute cvc5 query and runs in the thorough tier only; the quick tier proves the None and Infinite cases, all six get_position mode contracts, and runs the native frame simulation", "that real (generated) timelines meet the abstract contract TL used here - in particular 'terminal values for every t >= duration()' - is the business of C03's contracts (ts_lemma_duration_agrees_*: proved for every configuration since the fix of the end-instant defect, DESIGN.md 8.14) and of the native Bevy/derive searches, not of this check's harnesses"]}
 P["C08"] = {"assumptions": [A["KANI"], A["A5"], "generated update assigns a field only if value_at returns Some (C17 harnesses)"], "trusted_base": TB_V + TB_K, "not_decided": []}
 P["C10"] = {"assumptions": [A["A1"], A["KANI"], A["FLOAT"]], "trusted_base": TB_V + TB_K, "not_decided": []}
 P["C11"] = {"assumptions": [A["KANI"]], "trusted_base": TB_K, "not_decided": ["bounded: 0..5, 7, 8 (and 9 in the thorough tier) keyframes (std sort executed with unwinding assertions); positions fully symbolic. Downstream, sorted distinct positions determine everything (C01 contracts take the sorted list)"]}
